@@ -162,6 +162,33 @@ pub fn check_doc_with(doc: &Document, table: bool, reader: Reader) -> Option<Str
     }
 }
 
+/// The same check through the path-taking entry point `Document::save(path)`, over a scratch file
+/// that already holds `existing` junk bytes (None = fresh path). Err = machinery (scratch file).
+pub fn check_doc_path_with(doc: &Document, table: bool, reader: Reader, existing: Option<usize>) -> Result<Option<String>, String> {
+    let p = util::scratch_path()?;
+    if let Some(k) = existing {
+        std::fs::write(&p, vec![b'#'; k]).map_err(|e| format!("scratch file: {}", e))?;
+    }
+    let mut d = doc.clone();
+    util::set_xref(&mut d, table);
+    let r = util::guard(|| d.save(&p).map(|_| ()));
+    let bytes = std::fs::read(&p);
+    let _ = std::fs::remove_file(&p);
+    let bytes = match r {
+        Ok(Ok(())) => bytes.map_err(|e| format!("reading back the scratch file: {}", e))?,
+        Ok(Err(e)) => return Ok(Some(format!("save(path) error: {}", e))),
+        Err(pn) => return Ok(Some(format!("save(path) {}", pn))),
+    };
+    let loaded = match reader(&bytes, doc) {
+        Ok(v) => v,
+        Err(e) => return Ok(Some(format!("file written by save(path): {}", e))),
+    };
+    Ok(match compare_loaded(doc, &loaded) {
+        RoundTrip::DocLevel(m) => Some(m),
+        RoundTrip::Objects(f) => f.into_iter().next().map(|x| x.1),
+    })
+}
+
 pub fn dict(entries: Vec<(&[u8], Object)>) -> Dictionary {
     let mut d = Dictionary::new();
     for (k, v) in entries {
